@@ -65,7 +65,7 @@ def ops():
         O.append(("%s i (scalar)" % cmd, [cmd, 1, H("i"), "i", 1, "1"], lambda m, app=app: m.setlist("i", "int", [1], app)))
         O.append(("%s single|zl [8]" % cmd, [cmd, 1, H("single|zl"), "i", 1, "8"], lambda m, app=app: m.setlist("single|zl", "int", [8], app)))
     for path, texts in (("il", ["7"]), ("il", ["7", "8", "9"]), ("i", ["6"]), ("i", ["6", "7"]), ("sl", ["m", "n"]), ("fl", ["0.5", "2"]),
-                        ("nosuch", ["1"]), ("b", ["yes"])):
+                        ("nosuch", ["1"]), ("b", ["yes"]), ("il", ["7", "bad"]), ("il", ["bad"]), ("fl", ["1", "2", "x"]), ("i", ["zz"])):
         O.append(("setmulti %s %r" % (path, texts), ["setmulti", 1, H(path), len(texts)] + [H(t) for t in texts],
                   lambda m, path=path, texts=texts: m.setmulti(path, texts)))
     for sec, title in (("tm", "a"), ("tm", "new"), ("tm", "n2"), ("tu", "t1"), ("tu", "u9"), ("nosuch", "x"), ("i", "77"), ("il", "x")):
